@@ -1,0 +1,38 @@
+//go:build verif && go1.18
+// +build verif,go1.18
+
+package cache
+
+import "runtime"
+
+// VerifClose stops background goroutines of the cache (idempotent).
+func (c *ShardedMapOf[V]) VerifClose() {
+	runtime.SetFinalizer(c, nil)
+	verifCloseChan(c.t.Closed)
+}
+
+// VerifCleanup runs one janitor cycle synchronously.
+func (c *ShardedMapOf[V]) VerifCleanup() {
+	c.t.invokeCleanup()
+}
+
+// VerifClose stops background goroutines of caches created by the frontend (idempotent).
+func (f *FailoverOf[V]) VerifClose() {
+	if f.Errors != nil {
+		f.Errors.VerifClose()
+	}
+
+	if f.config.Backend == nil {
+		if b, ok := f.backend.(*ShardedMapOf[V]); ok {
+			b.VerifClose()
+		}
+	}
+}
+
+// VerifKeyLocks returns number of key locks currently held.
+func (f *FailoverOf[V]) VerifKeyLocks() int {
+	f.lock.Lock()
+	defer f.lock.Unlock()
+
+	return len(f.keyLocks)
+}
